@@ -328,6 +328,7 @@ Example C15_merge_nonvacuous :
 Proof. eexists. split; vm_compute; reflexivity. Qed.
 
 Print Assumptions C15_ez_refs_valid.
+Print Assumptions C15_wf_graphb_sound.
 Print Assumptions C15_refs_ok_preserved.
 Print Assumptions C15_ez_symmetric.
 Print Assumptions C15_ez_class_table.
